@@ -46,7 +46,7 @@ SOfSnap(j) ==
          deliv |-> j.deliv, fstat |-> j.fstat, naks |-> j.naks, progress |-> j.progress, rfs |-> j.rfs,
          eof |-> [set |-> j.eof.set, cond |-> j.eof.cond, loc |-> j.eof.loc, flag |-> j.eof.flag,
                   size |-> j.eof.size, ckok |-> j.eof.ckok],
-         ack |-> j.ack, ackcond |-> j.ackcond, ackstatus |-> j.ackstatus, prompt |-> j.prompt,
+         acked |-> j.acked, ack |-> j.ack, ackcond |-> j.ackcond, ackstatus |-> j.ackstatus, prompt |-> j.prompt,
          eofInd |-> j.eofInd, cursor |-> j.cursor, tAck |-> Cnt(j.tAck), tInact |-> Cnt(j.tInact) ]
 
 ROfSnap(j) ==
@@ -122,7 +122,8 @@ Diff(p, e, C) ==
   \cup (IF p.r.alive /\ e.R.alive /\ RGuards(p.r, C) # SnapGuards(e.R) THEN {"Rguards"} ELSE {})
   \cup (IF p.out # StripAll(e.out) THEN {"out"} ELSE {})
   \cup (IF p.ind # e.ind THEN {"ind"} ELSE {})
-  \cup (IF p.res # e.res /\ ~(p.res = "ok" /\ e.res = "ok") THEN {"res"} ELSE {})
+  \* (the result of process_pdu is not observable in a running daemon)
+  \cup (IF p.res # e.res /\ ~("level" \in DOMAIN C /\ C.level = "D") THEN {"res"} ELSE {})
   \cup (IF p.w.dest # e.dest THEN {"dest"} ELSE {})
   \cup (IF p.w.tree # e.tree THEN {"tree"} ELSE {})
 
